@@ -310,6 +310,33 @@ def other_spellings_case(ctx, n_random):
     ctx.cov["other_spellings"] = ncmp
 
 
+def api_probe_case(ctx, preds_on_mir, key_prefix, what, key_of_call=None):
+    """every public method of the DSL's value classes, called with arguments from a small pool: each accepted call is
+    compiled and the given MIR-level specifications are evaluated on its MIR (a method added to the library is probed
+    the day it appears)"""
+    import os
+    import targeted
+    rc, out, err, dt = vlib.run([vlib.PY, os.path.join(vlib.VERIF, "tools", "impl_api_probe.py")], 900, cwd="/", env=vlib.impl_env())
+    if rc != 0 or "[" not in out:
+        raise RuntimeError("impl_api_probe.py failed: " + vlib.clean_noise(err)[-800:])
+    calls = json.loads(out[out.index("["):])
+    dummy = targeted.prog([targeted.inp("a", "a", targeted.SI)], [("o", "P0", "a")], ["api-probe"])
+    exprs = list(preds_on_mir.values())
+    outp, errors = progrun.eval_over_cases(ctx, "api_probe", IMPORTS, [dummy] * len(calls), calls, exprs)
+    if errors:
+        raise RuntimeError("cases api_probe failed: " + errors[0][1])
+    nbad = 0
+    for pname, e in preds_on_mir.items():
+        for j in outp[e]:
+            nbad += 1
+            key = (key_of_call(calls[j]["call"]) if key_of_call else None) or f"{key_prefix}/api:{calls[j]['call'].split('(')[0]}"
+            vlib.report_failure(ctx, key, f"{what}: the call {calls[j]['call']} is accepted and its MIR fails {pname}",
+                                dict(case=dict(kind="api-call", call=calls[j]["call"]), observed={k: calls[j]["ok"][k] for k in ("operations", "outputs", "inputs", "functions")},
+                                     how_to_replay="PYTHONPATH=<repo> /venv/bin/python /verif/tools/impl_api_probe.py  (prints every accepted call with its MIR)"))
+    ctx.note(f"validate: {len(calls)} accepted calls of public methods of the value classes (argument pool of 13 kinds, up to 2 arguments): {nbad} specification failures")
+    ctx.cov["api_calls_probed"] = len(calls)
+
+
 def plain_left_programs():
     import targeted
     progs = []
@@ -461,7 +488,7 @@ def after_failed_compilation_case(ctx, preds, classify):
     ctx.cov["after_failed_compilation_case"] = True
 
 
-def generic_run(ctx, preds, classify, n_quick=300, n_thorough=6000, level="proof", second_compilation=False, after_failed=False, plain_left=False, text_variants=False, other_spellings=False):
+def generic_run(ctx, preds, classify, n_quick=300, n_thorough=6000, level="proof", second_compilation=False, after_failed=False, plain_left=False, text_variants=False, other_spellings=False, api_probe=False):
     """shared body of the program-level checks: extract, prove, validate preds on implementation MIRs, tie the model"""
     import targeted
     ok_x = vlib.step_extract(ctx)
@@ -479,6 +506,8 @@ def generic_run(ctx, preds, classify, n_quick=300, n_thorough=6000, level="proof
         second_compilation_case(ctx, preds, classify)
     if plain_left:
         plain_left_operand_case(ctx, preds, classify)
+    if api_probe:
+        api_probe_case(ctx, {k: v for k, v in preds.items() if "must" not in k}, ctx.prop, "public API probe")
     if other_spellings:
         other_spellings_case(ctx, 12 if ctx.tier == "quick" else 150)
     if text_variants:
